@@ -73,7 +73,8 @@ class Typename:
 
     def instantiated_name(self) -> str:
         """Get the instantiated name of the type."""
-        res = self.name
+        # `unsigned char` is the one type name that is not an identifier
+        res = self.name.replace(' ', '')
         for instantiation in self.instantiations:
             res += instantiation.instantiated_name()
         return res
